@@ -549,11 +549,13 @@ func digestFor(cls string, canon []byte) string {
 }
 
 type fakeReg struct {
-	body    []byte
-	hdrDig  string
-	hdrMT   string
-	putBody []byte
-	putPath string
+	index     []byte // when set: served for every manifest path except childPath
+	childPath string
+	body      []byte
+	hdrDig    string
+	hdrMT     string
+	putBody   []byte
+	putPath   string
 }
 
 func (f *fakeReg) RoundTrip(req *http.Request) (*http.Response, error) {
@@ -572,6 +574,11 @@ func (f *fakeReg) RoundTrip(req *http.Request) (*http.Response, error) {
 	switch {
 	case p == "/v2/" || p == "/v2":
 		return mk(200, nil, []byte("{}")), nil
+	case f.index != nil && strings.Contains(p, "/manifests/") && !strings.HasSuffix(p, f.childPath) &&
+		(req.Method == http.MethodGet || req.Method == http.MethodHead):
+		h := http.Header{}
+		h.Set("Content-Type", mediatype.OCI1ManifestList)
+		return mk(200, h, f.index), nil
 	case strings.Contains(p, "/manifests/") && (req.Method == http.MethodGet || req.Method == http.MethodHead):
 		h := http.Header{}
 		if f.hdrMT != "" {
@@ -597,6 +604,12 @@ func runFetch(enc *json.Encoder, sc fetchScn, scratch string, n int) {
 	}
 	if sc.Via == "ocidir" && (sc.Hdr != "absent" || sc.HdrMT != "absent") {
 		return // a layout has no headers
+	}
+	if sc.Via == "regplat" && (sc.Ref != "absent" || sc.Desc == "absent" || (sc.Kind != "oci_image" && sc.Kind != "d2_image")) {
+		return // the child of an index entry: an image, asked for by the entry's digest
+	}
+	if sc.Via == "regdata" && (sc.Desc == "absent" || sc.Ref != "absent") {
+		return // inline data needs a descriptor
 	}
 	body := bodyVariant(sc.Kind, sc.Variant)
 	canon := canonical(sc.Kind, body)
@@ -672,6 +685,28 @@ func runFetch(enc *json.Encoder, sc fetchScn, scratch string, n int) {
 				fr2put = fr.putBody
 				ev["put_done"], ev["put_sha256"] = 1, h256(fr.putBody)
 				ev["put_digest"] = string(m.GetDescriptor().Digest)
+			}
+		}
+	case "regplat", "regdata":
+		fr := &fakeReg{body: body, hdrDig: hdrDig, hdrMT: hdrMT}
+		rc := regclient.New(regclient.WithConfigHost(config.Host{Name: "registry.example", Hostname: "registry.example", TLS: config.TLSDisabled}),
+			regclient.WithRegOpts(reg.WithHTTPClient(&http.Client{Transport: fr}), reg.WithDelay(time.Millisecond, 5*time.Millisecond), reg.WithRetryLimit(2)))
+		r, rerr := ref.New("registry.example/repo:tag")
+		if rerr != nil {
+			fail(rerr)
+		}
+		if sc.Via == "regdata" {
+			m, err = rc.ManifestGet(ctx, r, regclient.WithManifestDesc(descriptor.Descriptor{
+				MediaType: kindMT(sc.Kind), Digest: digest.Digest(descDig), Size: int64(len(body)), Data: body}))
+		} else {
+			// the tag is an index with one entry for linux/amd64 whose digest is descDig
+			idx := fmt.Sprintf(`{"schemaVersion":2,"mediaType":"application/vnd.oci.image.index.v1+json","manifests":[{"mediaType":%q,"digest":%q,"size":%d,"platform":{"os":"linux","architecture":"amd64"}}]}`,
+				kindMT(sc.Kind), descDig, len(body))
+			fr.index, fr.childPath = []byte(idx), "/manifests/"+descDig
+			m, err = rc.ManifestGet(ctx, r, regclient.WithManifestPlatform(platform.Platform{OS: "linux", Architecture: "amd64"}))
+			if err == nil && m != nil && m.IsList() {
+				err = fmt.Errorf("platform not resolved")
+				m = nil
 			}
 		}
 	case "ocidir":
